@@ -143,6 +143,37 @@ theorem location_changed_spec (locs : PyDict σ Int) (loc : σ) :
           rw [List.any_eq_true]
           exact ⟨(l, t), hm, by simpa using hl⟩
 
+/-- a second location in the same (known) address family is a change; a location without IP version (a host name)
+    never is one for a device that already has a location -/
+theorem location_family (l1 l2 : σ) (t : Int) (hne : l1 ≠ l2) :
+    (∀ v, ipv l1 = some v → ipv l2 = some v → locChanged ipv [(l1, t)] l2 = true) ∧
+    (ipv l2 = none → locChanged ipv [(l1, t)] l2 = false) ∧
+    (∀ v w, ipv l1 = some v → ipv l2 = some w → v ≠ w → locChanged ipv [(l1, t)] l2 = false) := by
+  have hc : PyDict.contains [(l1, t)] l2 = false := by simp [PyDict.contains, get?, hne]
+  refine ⟨fun v h1 h2 => ?_, fun h2 => ?_, fun v w h1 h2 hvw => ?_⟩
+  · simp [locChanged, hc, h2, h1]
+  · simp [locChanged, hc, h2]
+  · simp [locChanged, hc, h2, h1, hvw]
+
+/-- instance at the real `ip_version_from_location`: two distinct IPv4 URLs `http://a.b.c.d[:port][/path]` — the second
+    is a changed location for a device known only at the first -/
+theorem new_ipv4_location_is_change (a b c d a' b' c' d' : Nat) (ha : a < 256) (hb : b < 256) (hc : c < 256) (hd : d < 256)
+    (ha' : a' < 256) (hb' : b' < 256) (hc' : c' < 256) (hd' : d' < 256) (port port' : Option Nat)
+    (path path' : Option (List Char)) (t : Int) :
+    let url := fun (a b c d : Nat) (port : Option Nat) (path : Option (List Char)) =>
+      String.ofList ("http://".toList ++ (Parse.quad a b c d ++
+        ((match port with
+          | some p => ':' :: Parse.dec p
+          | none => []) ++
+         (match path with
+          | some p => '/' :: p
+          | none => []))))
+    url a b c d port path ≠ url a' b' c' d' port' path' →
+    locChanged Parse.ipVersion [(url a b c d port path, t)] (url a' b' c' d' port' path') = true := by
+  intro url hne
+  exact (location_family Parse.ipVersion _ _ t hne).1 4
+    (Parse.ipVersion_v4 a b c d ha hb hc hd port path) (Parse.ipVersion_v4 a' b' c' d' ha' hb' hc' hd' port' path')
+
 /-- **combined_spec** — `combined_headers(ty)` equals, as a map from folded header names to values and the entry
     `_source` apart, the stored search headers overlaid by the stored advertisement headers (either alone when the
     other is absent, empty when both are). -/
